@@ -443,16 +443,17 @@ Definition instant (cfg : config) (comb : network) (evs : list event) (d : data)
 Definition data_cleared (cfg : config) : data :=
   mk_data (map rstate_cleared (cfg_regs cfg)) (map (fun p => all_X (fst p)) (cfg_inputs cfg)).
 
-(* powerOn: assert every reset pin; "immediately disable again" when the hold time is zero.
-   NOTE (faithful to ReferenceSimulator.cpp): that branch first flips rs.resetHigh and then passes
-   `!rs.resetHigh` -- i.e. the ASSERTED level once more -- to changeReset() and onReset().  It is only
-   reachable for reset pins without any clocked node (SchedRegs.zero_hold_no_register). *)
+(* powerOn: assert every reset pin; "immediately disable again" when the hold time is zero: rs.resetHigh is
+   flipped and the new (released) level is passed to changeReset() and onReset().
+   (Until the repair recorded in KNOWN_FINDINGS.txt the code passed `!rs.resetHigh`, the asserted level, a
+   second time; the branch is only reachable for reset pins without any clocked node, so only the onReset
+   callback was affected.  The tie keeps such node-less reset pins among its configurations.) *)
 Definition poweron_resets (cfg : config) (d : data) : data :=
   fold_left (fun d s =>
     let act := ck_active_high (get_clock (cfg_clocks cfg) s) in
     let d1 := reset_value_change cfg s act d in
     if Qis_zero (reset_hold_time cfg s)
-    then (let flipped := negb act in reset_value_change cfg s (negb flipped) d1)
+    then (let flipped := negb act in reset_value_change cfg s flipped d1)
     else d1)
     (reset_pins cfg) d.
 
@@ -460,7 +461,7 @@ Definition poweron_resets (cfg : config) (d : data) : data :=
 Definition poweron_reset_log (cfg : config) : list (nat * bool) :=
   flat_map (fun s =>
     let act := ck_active_high (get_clock (cfg_clocks cfg) s) in
-    (s, act) :: (if Qis_zero (reset_hold_time cfg s) then [(s, negb (negb act))] else []))
+    (s, act) :: (if Qis_zero (reset_hold_time cfg s) then [(s, negb act)] else []))
     (reset_pins cfg).
 
 Definition power_on (cfg : config) (comb : network) : data :=
